@@ -272,6 +272,29 @@ pub fn labels_of(ty: &str, doc: &Value) -> Vec<String> {
         }
     }
     xlist_m2(doc, &mut l);
+    // an identity of E'(Fp2) written as (0 : y : 0) with y != 1 (left behind by point arithmetic):
+    // its byte form is not the one `from_bytes` gives back
+    fn odd_identity(v: &Value, l: &mut Vec<String>) {
+        match v {
+            Value::String(s) => {
+                let t: Vec<&str> = s.split(' ').collect();
+                let zero = |h: &str| h.bytes().all(|c| c == b'0');
+                if t.len() == 12 && t.iter().skip(1).step_by(2).all(|h| h.len() >= 64) && zero(t[9]) && zero(t[11])
+                    && !(zero(t[1]) && zero(t[3]) && t[5] == "095E45DDF417D05FB10933FFC63D474548B7FFFF7888802F07FFFFFF7D07A8A8" && zero(t[7]))
+                {
+                    if let Ok(p) = vf::PointG2Inf::from_string(s) {
+                        if p.is_inf().unwrap_or(false) {
+                            l.push("noncanonical_identity".to_string());
+                        }
+                    }
+                }
+            }
+            Value::Array(a) => a.iter().for_each(|x| odd_identity(x, l)),
+            Value::Object(m) => m.values().for_each(|x| odd_identity(x, l)),
+            _ => {}
+        }
+    }
+    odd_identity(doc, &mut l);
     fn delta_inside(v: &Value, l: &mut Vec<String>) {
         if let Value::Object(m) = v {
             for x in m.values() {
